@@ -52,7 +52,10 @@ def boundary_push_cases(big):
                 for pos, (a, z) in {"lead": (b"", b""), "mid": (b"\x51\x76", b""), "trail_ops": (b"\x51", b"\x52")}.items():
                     if pos == "trail_ops" and vn != "complete":
                         continue  # bytes after a short push are swallowed as payload; covered by 'mid'
-                    out.append({"k": "script", "hex": (a + body + z).hex(), "tag": "bpush:%s:%s" % (vn, pos)})
+                    c_ = {"k": "script", "hex": (a + body + z).hex(), "tag": "bpush:%s:%s" % (vn, pos)}
+                    if vn == "complete":
+                        c_["must_accept"] = True  # complete pushes of every form between plain opcodes are in the accepted grammar
+                    out.append(c_)
     return out
 
 
@@ -71,6 +74,16 @@ def cases(ctx):
     for c in bp[S::N]:
         yield c
         yield {"k": "tx_embed", "hex": c["hex"], "tag": c["tag"]}
+    # exhaustive over short scripts from a structural alphabet (conditionals with several ELSE, stray ELSE/ENDIF, empty branches)
+    SA = [0x63, 0x64, 0x67, 0x68, 0x51, 0x00]
+    kk = 0
+    for L in range(3, 7):
+        for combo in itertools.product(SA, repeat=L):
+            kk += 1
+            if kk % N == S:
+                yield {"k": "script", "hex": bytes(combo).hex(), "tag": "structural"}
+    if S == 0:
+        ctx.exhaustive.append("all scripts of length 3..6 over the structural alphabet {IF, NOTIF, ELSE, ENDIF, OP_1, OP_0}")
     # all 256 opcode bytes in leading / middle / trailing position of a small valid script
     for v in range(S, 256, N):
         for pos, sc in (("lead", bytes([v, 0x51, 0x52])), ("mid", bytes([0x51, v, 0x52])), ("trail", bytes([0x51, 0x52, v]))):
